@@ -60,6 +60,7 @@ func C05(c *core.Ctx) {
 			return
 		}
 		c05poison(c)
+		c05halfdead(c)
 		c05sched(c, dev)
 		c05bystander(c, dev)
 		return
@@ -138,6 +139,12 @@ func C05(c *core.Ctx) {
 	c.Rep.Scenarios++
 	c.Rep.Sample(map[string]interface{}{"search": "hostile streams", "streams": len(streams), "modes": "before/after CONNECT x nothing/cut/more", "example": fmt.Sprintf("%x", streams[17])})
 	c05poison(c)
+	if c.HasViolation() || c.Expired() {
+		return
+	}
+	if c.Shard == 0 {
+		c05halfdead(c)
+	}
 	if c.HasViolation() || c.Expired() {
 		return
 	}
@@ -363,4 +370,103 @@ func c05bystander(c *core.Ctx, dev int) {
 			return
 		}
 	}
+}
+
+// c05halfdead: the publisher's connection breaks in one direction only - the
+// broker cannot write to it any more (its sender has noticed and closed the
+// outgoing ring), but what the publisher had sent before still arrives and is
+// processed.  What it released (PUBREL) or published must reach the bystander
+// exactly once; the bystander's own connection is unaffected.
+func c05halfdead(c *core.Ctx) {
+	for _, v := range []string{"PUBREL after the break", "QoS 1 PUBLISH after the break", "QoS 0 PUBLISH after the break"} {
+		if c.Replay != nil && c.Replay.Scenario != "half-dead publisher: "+v {
+			continue
+		}
+		if c.Expired() || c.HasViolation() {
+			return
+		}
+		v := v
+		body := func() {
+			t := newTD()
+			ws := t.connect("WS", 0, 65535, false)
+			t.subscribe("WS", "wit/ness", 2)
+			p := t.connect("P", 0, 65535, false)
+			p.rc.AutoAck = false
+			if v == "PUBREL after the break" {
+				p.rc.Send(&refcodec.Packet{Type: refcodec.PUBLISH, Topic: []byte("wit/ness"), QoS: 2, ID: 9, Payload: []byte("released")})
+				t.settleExcept()
+				if got := p.rc.Take(); !hasType(got, refcodec.PUBREC) {
+					vsched.Failf("harness: QoS 2 PUBLISH answered by %s", Describe(got))
+					return
+				}
+			}
+			// the broker -> publisher direction breaks; a PINGREQ makes the broker's sender notice
+			p.rc.vc.CloseRead()
+			p.noRead = true
+			p.rc.Send(&refcodec.Packet{Type: refcodec.PINGREQ})
+			t.settleExcept()
+			want := "released"
+			switch v {
+			case "PUBREL after the break":
+				p.rc.Send(&refcodec.Packet{Type: refcodec.PUBREL, ID: 9})
+			case "QoS 1 PUBLISH after the break":
+				want = "q1"
+				p.rc.Send(&refcodec.Packet{Type: refcodec.PUBLISH, Topic: []byte("wit/ness"), QoS: 1, ID: 10, Payload: []byte("q1")})
+			default:
+				want = "q0"
+				p.rc.Send(&refcodec.Packet{Type: refcodec.PUBLISH, Topic: []byte("wit/ness"), Payload: []byte("q0")})
+			}
+			t.settleExcept()
+			p.rc.Cut()
+			p.ended = true
+			t.settleExcept()
+			if ws.rc.EOF || ws.rc.ReadErr != "" {
+				vsched.Failf("the broker closed the bystander's connection")
+				return
+			}
+			n := 0
+			for _, pk := range publishesOn(ws.rc.Take(), "wit/ness") {
+				if string(pk.Payload) == want {
+					n++
+				}
+			}
+			// a message the broker took over (PUBREC sent) and the publisher released is due
+			// exactly once (C02); an unacknowledged QoS 1 or a QoS 0 publish of a dying
+			// connection may be lost, but must not arrive twice
+			if (v == "PUBREL after the break" && n != 1) || n > 1 {
+				vsched.Failf("the bystander received the message its publisher had sent before its connection was gone %d times", n)
+				return
+			}
+			t.checkEnded(nil)
+			if t.badStream() {
+				return
+			}
+			vsched.Logf("ok")
+		}
+		res := explore.RunDefault(body)
+		if c.Replay != nil {
+			fmt.Println("replay: half-dead publisher:", v, res.Failures, firstLine(res.Crash))
+			c.Rep.Scenarios++
+			return
+		}
+		c.Rep.Executions++
+		c.Rep.Evaluations++
+		c.Rep.States++
+		c.Rep.Nontrivial++
+		c.Rep.Transitions += int64(len(res.Points))
+		msg := ""
+		if res.Status == vsched.StCrash {
+			msg = "a library goroutine panicked: " + firstLine(res.Crash)
+		} else if res.Status == vsched.StHorizon {
+			msg = "no quiescence: the broker keeps running without input"
+		} else if len(res.Failures) > 0 {
+			msg = res.Failures[0]
+		}
+		if msg != "" {
+			if c.Violate("C05 half-dead :: "+violClass(msg), core.Replay{Scenario: "half-dead publisher: " + v, Message: msg, Log: res.Log, Crash: res.Crash}) {
+				return
+			}
+		}
+	}
+	c.Rep.Scenarios++
 }
